@@ -17,7 +17,8 @@
     correspondence check compares, on every run, the model's prediction with
     what the implementation returns for the serialised octets.
     sha256 is the Section variable [hash]; database ids are positions (row ids
-    increase in insertion order).  Bugs are modelled as they are. *)
+    increase in insertion order).  Bugs are modelled as they are.
+    Code as of the fixes C02-1 .. C02-6 (fixes/C02-*.patch). *)
 From Coq Require Import String Ascii List Bool Arith NArith ZArith.
 From Raven Require Import Base.GoStr Base.GoStrMime Spec.Mime Model.MimeHeaders.
 Import ListNotations.
@@ -52,6 +53,12 @@ Definition store_blob (bs : blobs) (content encoding : str) : blobs * nat :=
   | None => (bs ++ [(k, content)], length bs)
   end.
 
+(** db.GetBlob. Since 12a5042 (parser.ReadPartContent) a blob row that cannot be
+    read makes the rebuild fail (FETCH answers NO) instead of reading as empty. The
+    model has no deletion of blob rows, and [c02_blobs_invisible] shows that every id
+    a stored row holds is a row of the table at any later time: the [None] case below
+    is unreachable from [store], so the two behaviours do not differ here (blob
+    faults are property C15). *)
 Definition get_blob (bs : blobs) (id : nat) : str :=
   match nth_error bs id with Some (_, c) => c | None => [] end.
 
@@ -74,14 +81,16 @@ Definition is_multipart_type (t : str) : bool := has_prefix (to_lower t) s_multi
 Definition s_text_ := S_ "text/".
 
 (** one leaf inside parseMultipart: multipart.Reader.NextPart decodes
-    quoted-printable itself and deletes the header; a read error drops the part *)
+    quoted-printable itself and deletes the header; a read error drops the part;
+    the file name is Part.FileName() (Content-Disposition) or else the name
+    parameter of Content-Type (C02-5) *)
 Definition parse_leaf (parent : option nat) (l : leaf) : option ppart :=
   let qp := equal_fold (l_cte l) s_qp in
   match (if qp then qp_decode (l_body l) else Some (l_body l)) with
   | None => None
   | Some content =>
       Some (mk_pp parent (to_lower (eff_type l)) (l_disp l) (if qp then [] else l_cte l)
-                  (eff_charset l) (l_filename l) (l_cid l) content)
+                  (eff_charset l) (match l_filename l with [] => l_ctname l | f => f end) (l_cid l) content)
   end.
 
 Definition container_part (parent : option nat) (subtype : str) : ppart :=
@@ -121,6 +130,7 @@ Definition media_type_of (ct : str) : str :=
 
 Definition s_cte_name := S_ "content-transfer-encoding".
 Definition s_mime_version := S_ "mime-version".
+Definition is_cte_name (n : str) : bool := str_eqb (to_lower (trim_space n)) s_cte_name.
 
 (** ParseMIMEMessage: headers + parts slice *)
 Definition parse_msg (m : msg) : list header * list ppart :=
@@ -131,9 +141,9 @@ Definition parse_msg (m : msg) : list header * list ppart :=
       let mt := match ct with [] => S_ "text/plain" | _ => media_type_of ct end in
       let charset := match ct with [] => S_ "us-ascii" | _ => [] end in
         (* with a stored Content-Type the charset column is never read back *)
-      if has_prefix mt s_multipart_
-      then (hs, [])          (* "multipart detected but no boundary!": no part at all *)
-      else (hs, [mk_pp None mt [] (header_get (m_hdrs m) s_cte_name) charset [] [] body])
+      (* C02-1: multipart/* without boundary is an ordinary single part. (A [Single]
+         body under a multipart/* type WITH boundary is not a message of the grammar.) *)
+      (hs, [mk_pp None mt [] (header_get (m_hdrs m) s_cte_name) charset [] [] body])
   | Multipart st ks =>
       (map hdr_store (m_hdrs m ++ [(S_ "Content-Type", S_ " multipart/" ++ st)]),
        container_part None st :: segs 0 1 ks)
@@ -156,7 +166,10 @@ Fixpoint store_parts (bs : blobs) (done todo : list ppart) (rows : list row) : b
   | p :: rest =>
       let '(bs', blob, text) :=
         if out_of_line p
-        then let '(b, id) := store_blob bs (pp_text p) (pp_cte p) in (b, Some id, [])
+        then let '(b, id) := store_blob bs (pp_text p) (pp_cte p) in
+             (* C02-6 blobHoldsContent: the row must hold exactly these octets, else the
+                part stays inline (the reference count is not modelled) *)
+             if str_eqb (get_blob b id) (pp_text p) then (b, Some id, []) else (b, None, pp_text p)
         else (bs, None, pp_text p) in
       let parent_db := match pp_parent p with
                        | Some j => if j <? length done then Some j else None
@@ -206,7 +219,8 @@ Definition emit_leaf (bs : blobs) (r : row) : leaf :=
     else if negb is_text && has_fn
          then (S_ "attachment; filename=" ++ q (pp_filename p), pp_filename p)
          else ([], []) in
-  mk_leaf (pp_type p) (pp_charset p) [] cte disp fname cid
+  let ctname := if is_blank (pp_disp p) && has_fn then pp_filename p else [] in   (* C02-5 *)
+  mk_leaf (pp_type p) (pp_charset p) ctname cte disp fname cid
           (drop_final_crlf (written_content (pp_cte p) (row_content bs r))).
 
 Definition indexed {A} (l : list A) : list (nat * A) := combine (seq 0 (length l)) l.
@@ -223,12 +237,15 @@ Definition sort_pn (l : list (nat * row)) : list (nat * row) := fold_right inser
 Definition children (rows : list row) (i : nat) : list (nat * row) :=
   sort_pn (filter (fun jr => opt_nat_eqb (r_parent (snd jr)) (Some i)) (indexed rows)).
 
+Definition nonempty_l {A} (l : list A) : bool := match l with [] => false | _ => true end.
+
 (** reconstructPartDFS *)
 Fixpoint build (fuel : nat) (bs : blobs) (rows : list row) (i : nat) (r : row) : mime :=
   match fuel with
   | O => Leaf (emit_leaf bs r)
   | S f =>
-      if is_multipart_type (pp_type (r_part r))
+      (* C02-1: a multipart/* row without children is a leaf with content *)
+      if is_multipart_type (pp_type (r_part r)) && nonempty_l (children rows i)
       then Multi (skipn 10 (pp_type (r_part r)))
                  (map (fun jr => build f bs rows (fst jr) (snd jr)) (children rows i))
       else Leaf (emit_leaf bs r)
@@ -256,14 +273,15 @@ Definition fetch (bs : blobs) (st : stored) : option msg :=
             if existsb (fun h => is_ct_name (fst h)) (s_hdrs st) then []
             else (S_ "Content-Type",
                   S_ " " ++ pp_type p ++ (match pp_charset p with [] => [] | c => S_ "; charset=" ++ c end))
-                 :: (match pp_cte p with [] => [] | e => [(S_ "Content-Transfer-Encoding", S_ " " ++ e)] end) in
+                 :: (if existsb (fun h => is_cte_name (fst h)) (s_hdrs st) then []     (* C02-4 *)
+                     else match pp_cte p with [] => [] | e => [(S_ "Content-Transfer-Encoding", S_ " " ++ e)] end) in
           Some (mk_msg (map out_hdr (s_hdrs st) ++ extra) (Single (row_content bs r)))
       end
   | _ =>
       let hs := filter (fun h => negb (is_mime_hdr (fst h))) (s_hdrs st) in
       match hs, filter (fun jr => opt_nat_eqb (r_parent (snd jr)) None) (indexed (s_rows st)) with
       | _ :: _, [(i, r)] =>
-          if is_multipart_type (pp_type (r_part r))
+          if is_multipart_type (pp_type (r_part r)) && nonempty_l (children (s_rows st) i)
           then Some (mk_msg (map out_hdr hs ++ [(S_ "MIME-Version", S_ " 1.0")])
                             (Multipart (skipn 10 (pp_type (r_part r)))
                                (map (fun jr => build (length (s_rows st)) bs (s_rows st) (fst jr) (snd jr))
@@ -277,48 +295,5 @@ Definition fetch (bs : blobs) (st : stored) : option msg :=
     by messages stored in between) *)
 Definition roundtrip (bs : blobs) (m : msg) (later : blobs) : option msg :=
   let '(bs', st) := store bs m in fetch (bs' ++ later) st.
-
-(** ---- classes of inputs on which raven violates the property *)
-Inductive finding := NoBoundary | DedupForeignForm | FoldWs | DupCte | CtNameDropped.
-
-Fixpoint any_leaf (f : leaf -> bool) (t : mime) {struct t} : bool :=
-  match t with
-  | Leaf l => f l
-  | Multi _ ks => (fix go (l : list mime) : bool := match l with [] => false | k :: r => any_leaf f k || go r end) ks
-  end.
-Definition any_leaf_kids (f : leaf -> bool) (ks : list mime) : bool := existsb (any_leaf f) ks.
-
-(** some out-of-line part finds a blob row that holds different octets *)
-Fixpoint conflict_parts (bs : blobs) (parts : list ppart) : bool :=
-  match parts with
-  | [] => false
-  | p :: rest =>
-      if out_of_line p
-      then let '(bs', id) := store_blob bs (pp_text p) (pp_cte p) in
-           negb (str_eqb (get_blob bs' id) (pp_text p)) || conflict_parts bs' rest
-      else conflict_parts bs rest
-  end.
-
-Definition has_fold (v : str) : bool := contains v crlf.
-Definition fold_ws (h : header) : bool :=
-  has_fold (snd h) && negb (hdr_eqv h (out_hdr (hdr_store h))).
-
-Definition classify (bs : blobs) (m : msg) : option finding :=
-  let no_boundary :=
-    match m_body m with
-    | Single _ => has_prefix (media_type_of (header_get (m_hdrs m) s_content_type)) s_multipart_
-    | Multipart _ ks => any_leaf_kids (fun l => is_multipart_type (eff_type l)) ks
-    end in
-  if no_boundary then Some NoBoundary
-  else if conflict_parts bs (snd (parse_msg m)) then Some DedupForeignForm
-  else match m_body m with
-       | Single _ =>
-           if existsb fold_ws (m_hdrs m) then Some FoldWs
-           else if negb (has_ct (m_hdrs m)) && nonempty (header_get (m_hdrs m) s_cte_name) then Some DupCte
-           else None
-       | Multipart _ ks =>
-           if any_leaf_kids (fun l => negb (nonempty (l_filename l)) && nonempty (l_ctname l)) ks
-           then Some CtNameDropped else None
-       end.
 
 End Store.
